@@ -39,6 +39,14 @@ def file_recipes(rng, n):
         for head in (False, True):
             out.append(c02.mk(head, rngh, None, 6, 2))
     out.append(c02.mk(False, None, None, 0, 3))
+    # ranges longer than one chunk that stop before the end of the file (aligned and not aligned with the chunk
+    # size), and a whole file that ends exactly on a chunk edge
+    for head in (False, True):
+        out.append(c02.mk(head, "bytes=1-5", None, 9, 2))
+        out.append(c02.mk(head, "bytes=0-3", None, 9, 2))
+        out.append(c02.mk(head, "bytes=0-2,4-6", None, 9, 2))
+    out.append(c02.mk(False, None, None, 8, 2))
+    out.append(c02.mk(False, "bytes=2-", None, 8, 3))
     out.append(c02.mk(False, None, None, 7, 3, ctype="application/octet-stream"))
     out.append(c02.mk(False, "bytes=1-2", None, 7, 3, name="résumé.txt"))
     out.append(c02.mk(False, None, None, 7, 3, name="文件.txt"))
